@@ -25,6 +25,8 @@ def extra(res, facts, entries, protos):
         c08_fpai.format_token(res, facts, rule="C05.R6")
     c08_fpai.pae(res, facts, rule="C05.R7")
     # absent == empty: the expected footer enters both the comparison and the PAE through unwrap_or_default (R2 checks the PAE side)
+    # R9: a clone of the builder / carrier types keeps what was set on the original
+    _proto.clone_rule(res, "C05.R9", facts)
     res.notes.append("absent == empty: the expected footer reaches the comparison and every PAE as Option::unwrap_or_default(param)")
 
 
